@@ -31,6 +31,10 @@ pub struct StreamJob {
   /// true: nothing reads the stream until shutdown has returned (buffer is large enough);
   /// false: a consumer thread reads concurrently until it sees the disconnect
   pub late_drain: bool,
+  /// concurrent consumer sleeps this long after every event (a slow consumer keeps the stream
+  /// full, so emitters are blocked inside `send` when shutdown arrives)
+  #[serde(default)]
+  pub delay_us: u32,
 }
 
 #[derive(Clone, Debug, Serialize, Deserialize)]
@@ -135,9 +139,15 @@ pub fn main(job_path: &str) -> i32 {
     } else {
       let got: Arc<Mutex<StreamResult>> = Arc::new(Mutex::new(StreamResult::default()));
       let g2 = got.clone();
+      let delay = s.delay_us;
       let h = std::thread::spawn(move || loop {
         match rx.recv() {
-          Ok(ev) => g2.lock().unwrap().events.push((ev.message.unwrap_or_default(), ev.level.to_string(), ev.target)),
+          Ok(ev) => {
+            g2.lock().unwrap().events.push((ev.message.unwrap_or_default(), ev.level.to_string(), ev.target));
+            if delay > 0 {
+              std::thread::sleep(Duration::from_micros(delay as u64));
+            }
+          }
           Err(_) => {
             // "after which custom streams drain and then disconnect"
             g2.lock().unwrap().disconnected = true;
@@ -231,13 +241,20 @@ pub fn main(job_path: &str) -> i32 {
   }
   result.before_shutdown = joined.into_iter().map(|j| j.unwrap_or_default()).collect();
 
-  // concurrent consumers must observe the disconnect (bounded wait: a consumer that never
-  // sees it is reported as such, the child does not hang on it)
+  // concurrent consumers must observe the disconnect once they have drained what was buffered
+  // (bounded wait: a consumer that makes no progress for `wait` seconds and still has not seen
+  // the disconnect is reported as such; the child does not hang on it)
   let wait: u64 = std::env::var("VERIF_DISCONNECT_SECS").ok().and_then(|v| v.parse().ok()).unwrap_or(6);
-  let deadline = Instant::now() + Duration::from_secs(wait);
   for (name, got, h) in consumers {
-    while !h.is_finished() && Instant::now() < deadline {
+    let mut last_len = got.lock().unwrap().events.len();
+    let mut last_progress = Instant::now();
+    while !h.is_finished() && last_progress.elapsed() < Duration::from_secs(wait) {
       std::thread::sleep(Duration::from_millis(2));
+      let n = got.lock().unwrap().events.len();
+      if n != last_len {
+        last_len = n;
+        last_progress = Instant::now();
+      }
     }
     let sr = got.lock().unwrap().clone();
     result.streams.insert(name, sr);
